@@ -25,6 +25,10 @@ CLAIMED = {
   "Deductive proof of binary encoding round trips: stor.Writer.Put1..Put5/PutStr append exactly the little-endian bytes (and panic exactly outside the range), Reader.Get1..Get5/GetStr invert them (arithmetic lemmas putget2..5), 5-byte small offsets round trip for all offsets < 2^40, and the zig-zag base-128 varints of dbms/mux: PutInt64 emits exactly the closed-form encoding and GetInt64 decodes it back for ALL int64 (bit-vector semantics, loops completely unrolled with unwinding obligations), with frames and bounds safety.",
   "Scope: functions listed in evidence. NOT covered yet: core.Record/RecordBuilder layout, PutStrs/GetStrs, the WriteBuf flush path (Write1 is an assumed contract over a ghost output stream: the network write is trusted), pack ints. Object sizes assumed <= 2^48 bytes (Go runtime maxAlloc).",
   "DESIGN.md §4 C14"),
+ "C17": (
+  "Deductive proof of the checker message queue's selection logic as atomic steps: Put appends exactly one element at the end and leaves the rest untouched; Get returns an element that is the oldest of its transaction (per-transaction FIFO: no earlier queued element has the same tran), whose priority is maximal among all oldest-of-transaction elements, the earliest among those of maximal priority, and removes exactly that element preserving the order of the others (exactly-once delivery); isOldest is proved against its definition. Loops carry invariants and variants; all bounds obligations discharged.",
+  "Each method body runs under pq.lock and is verified as one sequential atomic step (sync.Mutex mutual exclusion trusted). Put/Get are verified from states where their guard holds (queue not full / not empty): the Cond.Wait loop is unrolled once and shown not to be entered; blocking/wake-up, fairness and progress are NOT covered. slices.Delete is an assumed library contract. The history-level statement (a commit is never processed before that transaction's earlier messages) follows from per_tran_fifo + Put-appends-at-end by induction over histories, which is argued, not machine-checked. Priorities chosen in db19/checkco.go are not covered.",
+  "DESIGN.md §4 C17"),
 }
 
 NA = {
